@@ -126,6 +126,8 @@ def run(ck, m):
                             return plain(e.left) or plain(e.right)
                         if isinstance(e, ast.JoinedStr):
                             return any(isinstance(v_, ast.FormattedValue) and plain(v_.value) for v_ in e.values)
+                        if isinstance(e, ast.Call) and isinstance(e.func, ast.Attribute) and e.func.attr == "join" and len(e.args) == 1 and isinstance(e.args[0], (ast.Tuple, ast.List)):
+                            return any(plain(x_) for x_ in e.args[0].elts)
                         return False
                     if plain(ta):
                         return True
@@ -232,6 +234,8 @@ def run(ck, m):
                     return _plain_end(e_.left) or _plain_end(e_.right)
                 if isinstance(e_, ast.JoinedStr):
                     return any(isinstance(v_, ast.FormattedValue) and _plain_end(v_.value) for v_ in e_.values)
+                if isinstance(e_, ast.Call) and isinstance(e_.func, ast.Attribute) and e_.func.attr == "join" and len(e_.args) == 1 and isinstance(e_.args[0], (ast.Tuple, ast.List)):
+                    return any(_plain_end(x_) for x_ in e_.args[0].elts)          # `''.join((ST, ST, KITTY_END_CHUNKED))`: a plain concatenation too
                 return False
             ck.ob("R3", c, _plain_end(ta_), f"{cls.name}: KITTY_END_CHUNKED must be sent unconditionally by the hook (not multiplied by / selected on a flag); found `{short(ta_, 70)}`", stmt=f"{cls.name}: hook ends chunked transmission unconditionally")
 
